@@ -106,6 +106,8 @@ META_CORPUS = [
     'start: x+\n?x: "(" x ")" | y\ny: A*\nA: "a"\n%ignore /[ \\n]+/\n',
     'start: _sep{A, ","} ";"\n_sep{x, s}: x (s x)*\nA: "a"\n%ignore /[ \\n]+/\n',
     'start: q q\n!?q: "k" | "(" q ")"\n%ignore /[ \\n]+/\n',
+    # a ?rule whose alternative is one inlined _rule (the brackets are matched inside it)
+    'start: stmt+\nstmt: atom ";"\n?atom: A | _paren | _pair\n_paren: "(" atom ")"\n_pair: "[" atom "," atom "]"\nA: "a"\n%ignore /[ \\n]+/\n',
 ]
 
 
